@@ -179,7 +179,7 @@ Theorem starts_with_ci_spec s p : valid_utf8 s = true -> valid_utf8 p = true -> 
   starts_with_ci s p = is_prefix (map low1 (utf8_chars p)) (map low1 (utf8_chars s)).
 Proof.
   intros Vs Vp K. unfold KnownC28_sw_zip in K. apply negb_false_iff, andb_true_iff in K. destruct K as [Ks Kp].
-  unfold starts_with_ci.
+  rewrite (starts_with_ci_valid s p Vs Vp).
   assert (Ls : length s = blen (utf8_chars s)) by (unfold blen; rewrite utf8_reencode by exact Vs; reflexivity).
   assert (Lp : length p = blen (utf8_chars p)) by (unfold blen; rewrite utf8_reencode by exact Vp; reflexivity).
   destruct (is_prefix (map low1 (utf8_chars p)) (map low1 (utf8_chars s))) eqn:P.
